@@ -401,7 +401,7 @@ func c19Programs(r *core.Rng, n int) []string {
 		case 14:
 			// every output format rendering values that are awkward to lay out
 			fm := []string{"TEXT", "BOX", "GFM", "ORG", "CSV", "TSV", "FIXED", "JSON", "JSONL", "LTSV"}[r.Intn(10)]
-			hv := []string{"'abc\r'", "'\r'", "'a\r\nb'", "'a\nb\n'", "'\n'", "''", "'\t'", "' '", "'日本語の値'", "'e\u0301'", "'🙂🙂'", "'a|b'", "'\\'", "REPEAT('x', 300)", "NULL", "TRUE", "1e308", "DATETIME('2012-02-03')", "'\x1b[31mred'", "'a\u200bb'", "'ＡＢＣ'"}
+			hv := []string{"'abc\r'", "'\r'", "'a\r\nb'", "'a\nb\n'", "'\n'", "''", "'\t'", "' '", "'日本語の値'", "'e\u0301'", "'🙂🙂'", "'a|b'", "'\\'", "LPAD('x', 300, 'x')", "NULL", "TRUE", "1e308", "DATETIME('2012-02-03')", "'\x1b[31mred'", "'a\u200bb'", "'ＡＢＣ'"}
 			pick := func() string { return hv[r.Intn(len(hv))] }
 			opt := []string{"", "SET @@EAST_ASIAN_ENCODING TO TRUE; ", "SET @@COUNT_DIACRITICAL_SIGN TO TRUE; ", "SET @@COUNT_FORMAT_CODE TO TRUE; ", "SET @@PRETTY_PRINT TO TRUE; ", "SET @@WITHOUT_HEADER TO TRUE; ", "SET @@ENCLOSE_ALL TO TRUE; ", "SET @@COLOR TO TRUE; ", "SET @@JSON_ESCAPE TO HEXALL; "}[r.Intn(9)]
 			out = append(out, fmt.Sprintf("SET @@FORMAT TO %s; %sSELECT %s AS a, %s AS `b\rc`, %s; SELECT %s AS x FROM t; SELECT * FROM e; SET @@FORMAT TO CSV;", fm, opt, pick(), pick(), pick(), pick()))
@@ -664,7 +664,40 @@ func shellJoin(args []string) string {
 	return strings.Join(o, " ")
 }
 
+// c19Patterns: LIKE patterns with many wildcards over texts that almost match. Matching must not take time exponential in
+// the number of wildcards: each statement runs in the real binary under a watchdog three orders of magnitude above what
+// it needs; a run the watchdog had to end is repeated once with twice the time before it counts as a hang.
+func c19Patterns(w *core.Worker, i int) {
+	r := w.Rng(i, "patterns")
+	core.WriteFiles(w.Work, map[string]string{"t.csv": "id,k,v\n1,a,3\n2,ab,\n3,b,-1\n"})
+	hangs := 0
+	for n := 0; n < 12 && hangs == 0; n++ {
+		k := []int{3, 8, 14, 25, 40}[r.Intn(5)]
+		ln := []int{10, 40, 120, 400}[r.Intn(4)]
+		unit := []string{"%a", "%a_", "_%a", "%aa", "%_a%", "%\\%a", "%ab"}[r.Intn(7)]
+		tail := []string{"%b", "b", "_b", "%", "", "%c"}[r.Intn(6)]
+		pat := strings.Repeat(unit, k) + tail
+		p := fmt.Sprintf("SELECT LPAD('a', %d, 'a') LIKE '%s', LPAD('a', %d, 'a') || 'b' LIKE '%s', LPAD('ab', %d, 'ab') NOT LIKE '%s'; SELECT COUNT(*) FROM t WHERE LPAD(k, %d, k) LIKE '%s';", ln, pat, ln, pat, ln, pat, ln, pat)
+		pr := core.RunProc(core.ProcOpts{Dir: w.Work, Args: csvqArgs("-q", p), Timeout: 20 * time.Second})
+		if pr.TimedOut {
+			pr = core.RunProc(core.ProcOpts{Dir: w.Work, Args: csvqArgs("-q", p), Timeout: 40 * time.Second})
+			if pr.TimedOut {
+				hangs++
+				w.Violation("hang:pattern-matching", fmt.Sprintf("%s: still running after 40 s (a pattern of %d wildcards over %d characters)", truncateStr(p, 200), k, ln), c19Replay{Kind: "pattern", Query: p, Detail: "watchdog, twice"})
+				continue
+			}
+		}
+		c19JudgeProc(w, pr, "pattern", p, nil)
+		w.Count("wildcard_patterns_matched", 1)
+		w.Case(core.Digest(p), pr.Code == 0)
+	}
+}
+
 func c19Case(w *core.Worker, i int) {
+	if i%40 == 7 {
+		c19Patterns(w, i)
+		return
+	}
 	switch i % 4 {
 	case 0, 1:
 		c19Loader(w, i)
